@@ -465,7 +465,8 @@ HOSTILE = ("pub struct Impl; pub struct Box; pub struct Pin; pub struct Option; 
 
 def cases_c19(rng, n, nostd=False):
     out = []
-    kinds = ["fn", "fn_async", "mod", "conc", "trait", "trait_ref", "trait_borrow", "inversion", "inversion_dyn", "named_send", "named_sync", "macro_rules", "macro_rules_trait"]
+    kinds = ["fn", "fn_async", "mod", "conc", "trait", "trait_ref", "trait_borrow", "inversion", "inversion_dyn", "named_send", "named_sync", "macro_rules", "macro_rules_trait",
+             "macro_rules_fn_deps", "macro_rules_mod", "macro_rules_inversion"]
     for i in range(n):
         kind = kinds[i % len(kinds)]
         E = "::entrait::entrait"
@@ -513,6 +514,23 @@ def cases_c19(rng, n, nostd=False):
             lib = ("macro_rules! mk { ($rhs:ident) => {\n#[%s]\npub trait Tq { fn sub(&self, a: i64, $rhs: i64) -> i64; }\n"
                    "pub struct P; impl Tq for P { fn sub(&self, a: i64, $rhs: i64) -> i64 { a - $rhs } }\n} }\nmk!(a);\n"
                    "pub fn call() -> i64 { Tq::sub(&%s::new(P), 7, 2) }") % (E, I)
+        elif kind == "macro_rules_fn_deps":
+            # a parameter name supplied by the caller that is also the name of an item in the invoking scope
+            pre = ""
+            lib = ("macro_rules! mk { ($f:ident, $x:ident) => {\n#[%s(pub Tr)]\npub fn $f(deps: &impl %s, $x: i64, y: i64) -> i64 { deps.a() - 2 + $x * 10 - y * 10 }\n} }\n"
+                   "pub fn y() -> i64 { 1000 }\nmk!(f, y);\npub struct App; impl %s for %s<App> {}\npub fn call() -> i64 { Tr::f(&%s::new(App), 2, 2) }") % (E, A_, A_, I, I)
+        elif kind == "macro_rules_mod":
+            # two functions of a module whose parameter lists contain the same spelling twice, once from the caller
+            pre = ""
+            lib = ("macro_rules! mk { ($p:ident) => {\n#[%s(pub Tr)]\npub mod m { pub fn g0(deps: &impl crate::A, $p: i64, q: i64) -> i64 { $p - q } "
+                   "pub fn g1(deps: &impl crate::A, q: i64, $p: i64) -> i64 { q - $p } }\n} }\nmk!(q);\n"
+                   "pub struct App; impl %s for %s<App> {}\npub fn call() -> i64 { let app = %s::new(App); Tr::g0(&app, 9, 4) + Tr::g1(&app, 9, 9) }") % (E, A_, I, I)
+        elif kind == "macro_rules_inversion":
+            pre = ""
+            lib = ("macro_rules! mk { ($p:ident) => {\n#[%s(TvImpl, delegate_by = DelegateTv)]\npub trait Tv { fn m(&self, a: i64, $p: i64) -> i64; }\npub struct X;\n"
+                   "#[%s]\nimpl TvImpl for X { pub fn m<D>(deps: &D, a: i64, $p: i64) -> i64 { a * 3 - $p } }\n"
+                   "pub struct App; impl DelegateTv<App> for App { type Target = X; }\n} }\nmk!(a);\n"
+                   "pub fn call() -> i64 { Tv::m(&%s::new(App), 3, 4) }") % (E, E, I)
         elif kind == "named_send":
             pre = ""
             lib = "#[%s(pub Send)]\npub fn send(deps: &impl %s, x: i64) -> i64 { x + 1 }\npub struct App; impl %s for %s<App> {}\npub fn call() -> i64 { Send::send(&%s::new(App), 4) }" % (E, A_, A_, I, I)
@@ -652,8 +670,8 @@ def build_cases(seed, tier):
     cases += cases_c13(rng, 72 * k)
     cases += cases_c12(rng, 21 * k)
     cases += cases_c14(rng, 27 * k)
-    cases += cases_c19(rng, 13 * k)
-    cases += cases_c19(rng, 13, nostd=True)
+    cases += cases_c19(rng, 16 * k)
+    cases += cases_c19(rng, 16, nostd=True)
     cases += cases_c10(rng, 60 * k)
     cases += cases_c11(rng, 27 * k)
     for i, c in enumerate(cases):
